@@ -151,6 +151,15 @@ def jobs(tier):
     for th in (0, 1, 2, 16):
         for fail in (False, True):
             js.append({'name': 'threads=%d fail=%s' % (th, fail), 'harness': (H, 'h_threads'), 'params': {'threads': th, 'fail': fail}})
+    # tag substitution with overlapping / nested tag names (slicing arithmetic in inject_tags)
+    from . import c14
+    for nls, cls, lls in (((2, 2), (1, 1), (3,)), ((2, 2), (0, 2), (4,)), ((1, 2), (1, 1), (3, 2)), ((2, 2, 2), (1, 1, 1), (4,))):
+        js.append({'name': 'tags %s %s %s no panic' % (nls, cls, lls), 'harness': ('props.c14', 'h_tags'),
+                   'params': {'name_lens': list(nls), 'cont_lens': list(cls), 'line_lens': list(lls), 'le': b'\n'}, 'split': 8})
+    # the coordinator must not hang: duplicate / nested directory inputs, aliases (same harness as C03)
+    for inp, rec in (((['.', '.']), False), (['.', 'sub'], True), (['sub', 'sub'], False), (['F0.txtpp', 'sub/../F0.txtpp'], False)):
+        js.append({'name': 'no hang inputs=%s' % ','.join(inp), 'harness': ('props.sched', 'h_sched'),
+                   'params': {'n': 1, 'inputs': inp, 'acyclic_only': True, 'recursive': rec, 'subdir': True, 'check_panics': True}, 'split': 8})
     for n, inp in ((2, ['F0.txtpp', 'F1.txtpp']), (3, ['.']), (3, ['F0.txtpp', 'F2.txtpp'])):
         js.append({'name': 'workers outliving a failed run n=%d' % n, 'harness': (H, 'h_workers'), 'params': {'n': n, 'inputs': inp, 'fail_budget': 1},
                    'split': 16 if n >= 3 else 1})
@@ -212,8 +221,14 @@ def replay(native, v):
         res = ppreplay.run_native_history(d, model, [(MODE_ARGS[d['mode']], True)])[0]
         return res['rc'] not in (0, 1), {'source': repr(ppreplay.conc(d['source'], model)), 'rc': res['rc'], 'stderr': res['stderr'][-200:]}
     if op == 'sched':
-        # a worker that panics after run() returned: library-level demonstration
-        return replay_workers(native, d)
+        if 'worker thread panics' in v['msg']:
+            # a worker that panics after run() returned: library-level demonstration
+            return replay_workers(native, d)
+        return sched.replay(native, v)
+    if op == 'tags':
+        from . import c14
+        bad, detail = c14.replay(native, v)
+        return bad or 'PANIC' in str(detail), detail
     return False, {'note': 'unknown op'}
 
 
